@@ -3,3 +3,4 @@ import HkModel.Obs.Queue
 import HkModel.Props.Queue
 import HkModel.Props.C06
 import HkModel.Props.C16
+import HkModel.Props.C10
